@@ -91,9 +91,11 @@ def translate(ck, known_names):
     """Run the translator; returns (diag dict or None, error text)."""
     tdir = os.path.join(vlib.VERIF, "translate")
     binp = os.path.join(vlib.WORK, "bin", "tr-flags")
-    rc, so, se = vlib.sh(["go", "build", "-o", binp, "./flags"], cwd=tdir, timeout=600)
-    if rc != 0:
-        return None, "translator does not build: " + se[-2000:]
+    srcs = [os.path.join(root, f) for root, _, fs in os.walk(tdir) for f in fs if f.endswith((".go", ".mod", ".sum"))]
+    if not (os.path.exists(binp) and os.path.getmtime(binp) >= max(os.path.getmtime(x) for x in srcs)):
+        rc, so, se = vlib.sh(["go", "build", "-o", binp, "./flags"], cwd=tdir, timeout=600)
+        if rc != 0:
+            return None, "translator does not build: " + se[-2000:]
     out = os.path.join(vlib.COQ, "theories", "Flags", "Generated.v")
     diag = os.path.join(ck.work, "diag.json")
     cmd = [binp, "-repo", vlib.REPO, "-out", out + ".tmp", "-json", diag, "-allow", os.path.join(tdir, "flags", "allow.txt"),
@@ -111,11 +113,31 @@ def translate(ck, known_names):
     return json.load(open(diag)), ""
 
 
+def prove(ck, tier):
+    """Re-check the proof obligations; the thorough tier rebuilds this property's own cone from scratch
+    (only our directories: other checks may be building in the same tree) and runs coqchk."""
+    if tier == "thorough":
+        for d in ['Flags'] + ["Properties"]:
+            dd = os.path.join(vlib.COQ, "theories", d)
+            for f in os.listdir(dd):
+                if f.endswith((".vo", ".vok", ".vos", ".glob")) and (d != "Properties" or f.startswith('C08.')):
+                    os.remove(os.path.join(dd, f))
+    ok = ck.obligations(PROP, clean=False)
+    if ok and tier == "thorough":
+        ok = ck.coqchk(['GV.Properties.C08'])
+        if not ok:
+            ck.cov["obligation_failure"] = "coqchk: " + str(ck.cov.get("coqchk"))
+    return ok
+
+
 def run(tier, seed):
     ck = vlib.Check("C08", tier, seed, level="proof")
     known_by_go = {k["match"]["go_function"]: k for k in ck.known if k.get("status") == "open" and "go_function" in k.get("match", {})}
 
-    # ---------------- 1. translator + proof obligations over the regenerated table
+    # ---------------- 1. translator (regenerates Flags/Generated.v) in parallel with the harness build
+    from concurrent.futures import ThreadPoolExecutor
+    pool = ThreadPoolExecutor(max_workers=2)
+    f_build = pool.submit(ck.build_gvh, ("verif",), False, "gvh_flags", "./cmd/gvh-flags", os.environ.get("VERIF_OVERLAY"))
     diag, err = translate(ck, sorted(known_by_go))
     if diag is None:
         ck.violation(err[:300], {"kind": "translator", "detail": err}, no_input=True)
@@ -126,7 +148,8 @@ def run(tier, seed):
                        "sinks": len(diag["sinks"]), "gate_edges_cut": diag.get("gate_edges_cut"),
                        "allow_used": diag.get("allow_used") or [], "allow_unused": diag.get("allow_unused") or [],
                        "translator_s": round(diag.get("total_s", 0), 1)}
-    ok_obl = ck.obligations(PROP, clean=(tier == "thorough"))
+    # the proof obligations are re-checked by coqc while the dynamic sweep runs
+    f_obl = pool.submit(prove, ck, tier)
     static_bad = [r for r in reg if r.get("path") and r["go_name"] not in known_by_go]
     static_known = [r for r in reg if r.get("path") and r["go_name"] in known_by_go]
     for k in known_by_go.values():
@@ -134,8 +157,9 @@ def run(tier, seed):
             ck.notes.append("known finding %s no longer reproduces statically (function not declared iosafe or no path to a sink)" % k["id"])
 
     # ---------------- 2. dynamic enumeration on the real runtime
-    gvh, berr = ck.build_gvh(pkg="./cmd/gvh-flags", name="gvh_flags", overlay=os.environ.get("VERIF_OVERLAY"))
+    gvh, berr = f_build.result()
     if gvh is None:
+        f_obl.result()
         ck.violation("harness does not build against /repo", {"kind": "build", "stderr": berr[-3000:]}, no_input=True)
         return ck.finish("n/a", TRUSTED, [])
     sentinel = os.path.join(ck.work, "sentinel")
@@ -163,7 +187,7 @@ def run(tier, seed):
         rows = regmap.get((norm_go(d["go"]), d["lua"]))
         if not rows:
             ck.violation("Go function %s (%s) is reachable from Lua but is not in the translator's registry" % (d["expr"], d["go"]),
-                         {"kind": "translator-incomplete", "function": d, "theorems_not_covering_it": ["C08_iosafe_functions_reach_no_sink_partial"]},
+                         {"kind": "translator-incomplete", "function": d, "theorems_not_covering_it": ["C08_iosafe_functions_reach_no_sink"]},
                          no_input=True)
             d["declared_static"] = None
             continue
@@ -180,6 +204,24 @@ def run(tier, seed):
     # ---------------- 3. calls under every flag subset
     cases = []
     quick = tier == "quick"
+    rot = ck.rng.below(6)
+    # corpus first: past witnesses, one per line: <lua expression>|<required flags>|<form>|<tuple index>
+    cdir = os.path.join(vlib.VERIF, "corpus", "C08")
+    ncorpus = 0
+    if os.path.isdir(cdir):
+        for fn in sorted(os.listdir(cdir)):
+            for l in open(os.path.join(cdir, fn)):
+                l = l.strip()
+                if not l or l.startswith("#"):
+                    continue
+                ex, R, fm, ti = l.split("|")
+                d = next((x for x in dyn if x["expr"] == ex), None)
+                if d is None:
+                    ck.notes.append("corpus entry for a function that no longer exists: " + ex)
+                    continue
+                cases.append((d, int(R), fm, int(ti), (int(R) & ~d["flags"]) != 0))
+                ncorpus += 1
+    ck.cov["corpus_cases"] = ncorpus
     for d in dyn:
         for R in range(16):
             blocked = (R & ~d["flags"]) != 0
@@ -188,9 +230,11 @@ def run(tier, seed):
                 continue
             combos = []
             if quick:
-                h = sum(d["expr"].encode()) % 6
-                combos += [(FORMS[(R + h) % 6], 0), ("pcall", 1 + (R + h) % 8), (FORMS[(R + h + 3) % 6], 3)]
-                if R in (4, 11, 15):
+                # deterministic in the seed: two rotating (form, tuple) picks per (function, flag set), every form and
+                # every tuple for the flag sets {iosafe} and all four
+                h = (sum(d["expr"].encode()) + rot) % 6
+                combos += [(FORMS[(R + h) % 6], (R + h) % len(TUPLES)), (FORMS[(R + h + 3) % 6], 3 if R & 4 else (R + 2 * h) % len(TUPLES))]
+                if R in (4, 15):
                     combos += [(fm, 0) for fm in FORMS] + [("pcall", ti) for ti in range(1, len(TUPLES))]
                 combos = sorted(set(combos))
             else:
@@ -202,7 +246,7 @@ def run(tier, seed):
     for d in dyn:
         if "(" in d["expr"]:
             continue
-        for R in range(1, 16):
+        for R in (range(1, 16) if not quick else sorted({4, 15, 1 + (rot + len(d["expr"])) % 15})):
             blocked = (R & ~d["flags"]) != 0
             if not blocked and d["go"] in DANGEROUS:
                 continue
@@ -343,14 +387,14 @@ def run(tier, seed):
         if (R & 4) and dg is not None and base_digest is not None and dg != base_digest:
             rep2 = dict(rep)
             rep2["sentinel"] = "changed"
-            rep2["theorem"] = "C08_iosafe_functions_reach_no_sink_partial"
+            rep2["theorem"] = "C08_iosafe_functions_reach_no_sink"
             report("sentinel directory changed by %s(%s) in a context requiring iosafe (declared '%s', %s call)" %
                    (d["expr"], TUPLES[ti] if not is_api else "'canary'", names(d["flags"]), fm), rep2, d, known_ok=True)
             ck.count("sentinel-changed-under-iosafe")
         elif (R & 4) and nchild > 0:
             rep2 = dict(rep)
             rep2["child_processes"] = nchild
-            rep2["theorem"] = "C08_iosafe_functions_reach_no_sink_partial"
+            rep2["theorem"] = "C08_iosafe_functions_reach_no_sink"
             report("%s(%s) started %d process(es) in a context requiring iosafe (declared '%s', %s call)" %
                    (d["expr"], TUPLES[ti] if not is_api else "'canary'", nchild, names(d["flags"]), fm), rep2, d, known_ok=True)
             ck.count("process-started-under-iosafe")
@@ -363,6 +407,8 @@ def run(tier, seed):
         if 0 <= ex < len(outs):
             ck.sample({"lua": bytes.fromhex(lines[ex].split(" ")[1]).decode(), "extra": lines[ex].split(" ")[2:], "impl": outs[ex][:300]})
 
+    ok_obl = f_obl.result()
+    pool.shutdown()
     # ---------------- 4. static rows: the generated table is the input; each offending row is a failing input
     for r in static_known:
         k = known_by_go[r["go_name"]]
@@ -373,7 +419,7 @@ def run(tier, seed):
         dynrows = [d for d in dyn if norm_go(d["go"]) == norm_go(r["go_name"])]
         ck.violation("function %s (%s, %s) is declared iosafe and reaches %s via %s" %
                      (r["go_name"], r["lua_name"], r["pos"], r["sink"], " -> ".join(r["path"])),
-                     {"kind": "generated-table-row", "row": r, "theorem": "C08_iosafe_functions_reach_no_sink_partial",
+                     {"kind": "generated-table-row", "row": r, "theorem": "C08_iosafe_functions_reach_no_sink",
                       "dynamic": "see sentinel violations of this run for %s" % [d["expr"] for d in dynrows],
                       "coq": str(ck.cov.get("obligation_failure", ""))[-600:]})
     for u in (diag["unresolved"] or [])[:10]:
